@@ -185,8 +185,11 @@ CHECKS = {
        "model checks - to decide what the value after the call must be. TLC (TraceGombok) accepts only events with the required API "
        "present, every law true and every Op as specified; a failing package is bisected to the struct that breaks it.",
   note="Trusted: TLC, go/types + the Go compiler as the judge of 'compiles', the reflection driver (reads fields via unsafe). "
-       "Field names Builder/Mutable/String-colliding with the generated API are outside the grammar; @fp.Getter/@fp.With/@fp.Builder "
-       "partial annotations and user-pre-defined methods are not generated. Struct shapes are sampled (seeded), not enumerated.",
+       "Field names Builder/Mutable/String-colliding with the generated API are outside the grammar. The grammar includes the annotation "
+       "combinations (@fp.Value with @fp.Getter/@fp.With/@fp.Builder/@fp.String/@fp.AllArgsConstructor/@fp.RequiredArgsConstructor and the "
+       "partial ones alone), user packages named like generated imports (option, as), embedded pointers / interfaces / named types and "
+       "embedded types whose promoted methods collide with generated accessors; @fp.Deref, @fp.GetterPubField/@fp.WithPubField and "
+       "user-pre-defined methods are not generated. Struct shapes are sampled (seeded), not enumerated.",
   technique="TLA+ API/law specification model-checked with TLC; generator run on seeded struct grammars, generated code driven by reflection, events validated by TLC"),
  "C15": dict(
   text="JsonCodec.tla defines Enc / Dec / Faithful for int, string, Unit, Option, pointer, slice and objects with omitempty; TLC checks "
@@ -217,8 +220,11 @@ CHECKS = {
        "the derived instance must answer. TLC (TraceDerive) accepts only agreeing laws, specified compositions and counters "
        "consistent with Derive!Resolve.",
   note="Trusted: TLC, the Go compiler as judge of 'compiles', the base instances of the typeclass packages (C09-C11, C18 check those). "
-       "Show instances, ImportGiven and js/read example typeclasses are not covered; recursion through bare slices ([]T of the type "
-       "itself) is outside the stated grammar (gombok emits an eagerly recursive instance for it). Shapes are sampled (seeded).",
+       "Show instances and the js/read example typeclasses are not covered; recursion through bare slices ([]T of the type itself) is "
+       "outside the stated grammar (gombok emits an eagerly recursive instance for it). Also covered by special packages: local generic "
+       "instance functions (EqSlice/CloneSlice), time.Duration under both local name forms, @fp.ImportGiven with a local EqSeq that needs "
+       "Ord[T] (README 7), nested generic instantiation with distinct type arguments, []byte fields, embedded empty / private structs, a "
+       "plain directive followed by recursive=true. Random shapes are sampled (seeded).",
   technique="TLA+ composition/resolution specification model-checked with TLC; derived instances compared with field-wise references, events validated by TLC"),
  "C13": dict(
   level="translation_validation",
